@@ -193,7 +193,8 @@ def thread_chunk(job):
     def make_bodies(run):
         fresh_world(w)
         p = ps.Process(PID)
-        p._lock = sched.CoopRLock(run)     # oneshot() holds the lock across the block
+        if not sched.coop_locks(p, run):   # oneshot() holds a lock across the block
+            p._lock = sched.CoopRLock(run)
         rec = Recorder(w, src, run)
         state["rec"] = rec
 
